@@ -1244,6 +1244,12 @@ def inline_named_constants(rel, module, refidents):
     declaration, an augmented assignment, a `del` or an attribute store."""
     import copy as _c11
     tree = module.tree
+    # module- / class-level `NAME: T = <constant>` is the same binding with an annotation that is never evaluated for its effect
+    for owner in [tree] + [c for c in tree.body if isinstance(c, ast.ClassDef)]:
+        for i_, st in enumerate(list(owner.body)):
+            if isinstance(st, ast.AnnAssign) and st.value is not None and isinstance(st.target, ast.Name) and st.simple and _const_expr(st.value) \
+                    and st.target.id not in refidents:
+                owner.body[i_] = ast.copy_location(ast.Assign(targets=[st.target], value=st.value), st)
     cands = {}
     for st in tree.body:
         if isinstance(st, ast.Assign) and len(st.targets) == 1 and isinstance(st.targets[0], ast.Name) and _const_expr(st.value):
@@ -1589,6 +1595,33 @@ def drop_ghost_state(repo, refidents, refnames):
         if touched:
             m.reindex()
     return removed
+
+
+def restore_instance_methods(repo):
+    """Step S55.  A method that does not use `self` and was given `@staticmethod` (its `self` parameter dropped) gets both back when the
+    reference has it as an instance method: every call `self.m(..)` / `obj.m(..)` binds the same arguments either way.  Returns the
+    number of methods restored."""
+    ref = refshapes()
+    n = 0
+    for rel, m in repo.modules.items():
+        touched = False
+        for lname, fn in m.funcs.items():
+            r = ref.get(rel + '::' + lname)
+            if not r or '.' not in lname or not isinstance(fn, ast.FunctionDef) or 'params' not in r:
+                continue
+            decs = [d for d in fn.decorator_list if isinstance(d, ast.Name) and d.id == 'staticmethod']
+            want = list(r['params'])
+            cur = [a.arg for a in fn.args.args]
+            if decs and want and want[0] == 'self' and len(cur) == len(want) - 1 and 'self' not in cur \
+                    and not any(isinstance(x, ast.Name) and x.id == 'self' for x in ast.walk(fn)):
+                fn.args.args.insert(0, ast.arg(arg='self', annotation=None))
+                fn.decorator_list = [d for d in fn.decorator_list if d not in decs]
+                ast.fix_missing_locations(fn)
+                n += 1
+                touched = True
+        if touched:
+            m.reindex()
+    return n
 
 
 def strip_local_annotations(module):
